@@ -476,7 +476,9 @@ class Evaluator:
             if va == vb:
                 out[k] = va
             else:
-                out[k] = ("ifexp", c, va if va is not None else ("undef", str(k)), vb if vb is not None else ("undef", str(k)))
+                # a term-keyed entry (remembered attribute/subscript store) missing on one side: that side still reads the slot itself
+                miss = k if isinstance(k, tuple) else ("undef", str(k))
+                out[k] = ("ifexp", c, va if va is not None else miss, vb if vb is not None else miss)
         return out
 
     def static_truth(self, c):
@@ -864,10 +866,13 @@ class Evaluator:
 
     def comp(self, kind, e, elts, fr):
         sub = Frame(self, fr.module, fr.qual, cls=fr.cls, parent=fr)
+        sub.guards = fr.guards
         gens = []
         for g in e.generators:
             it = self.expr(g.iter, sub)
             lid = next(self._ids)
+            # calls made per element are guarded like the enclosing statement and marked as inside a loop
+            sub.guards = sub.guards + ((("loop", lid, it), True),)
             self.assign_target(g.target, ("iter", lid, it), sub, e)
             conds = tuple(self.expr(c, sub) for c in g.ifs)
             gens.append((lid, it, conds))
